@@ -407,7 +407,12 @@ class TestcaseSymbol(Testcase):
                 self.reducible.append(True)
 
     def handle_args(self, args: argparse.Namespace) -> None:
-        self.set_cut_chars(args.cut_before, args.cut_after)
+        # values given on the command line are `str`, the defaults are `bytes`
+        before, after = (
+            val.encode("utf-8", errors="surrogateescape") if isinstance(val, str) else val
+            for val in (args.cut_before, args.cut_after)
+        )
+        self.set_cut_chars(before, after)
 
     @classmethod
     def add_arguments(cls, parser: argparse.ArgumentParser) -> None:
